@@ -66,3 +66,18 @@ func (ic *Credential) VerifNonrevCacheLen() int {
 	}
 	return len(ic.nonrevCache)
 }
+
+// VerifPeekNonrevCache returns the prepared builder in the credential's cache, leaving it there.
+// Only for single-threaded use by the harness.
+func (ic *Credential) VerifPeekNonrevCache() *NonRevocationProofBuilder {
+	if ic.nonrevCache == nil {
+		return nil
+	}
+	select {
+	case b := <-ic.nonrevCache:
+		ic.nonrevCache <- b
+		return b
+	default:
+		return nil
+	}
+}
